@@ -42,7 +42,7 @@ def _norm(p):
 _factor_cache = {}
 
 
-class _Alarm(Exception):
+class _Alarm(BaseException):
     pass
 
 
@@ -66,10 +66,12 @@ def _with_alarm(seconds, fn, *a):
 
 def _factors(p, limit=80):
     """list of non-constant irreducible factors (over Z[I_, x]); [p] if too large to factor"""
-    if len(p) > limit or p.is_ground:
+    if p.is_ground:
         return [p]
     key = p
     r = _factor_cache.get(key)
+    if r is None and len(p) > limit:
+        return [p]
     if r is None:
         try:
             _, fl = _with_alarm(1.5, p.factor_list)
@@ -82,6 +84,16 @@ def _factors(p, limit=80):
             _factor_cache.clear()
         _factor_cache[key] = r
     return r
+
+
+def add_factor_hint(p, factors):
+    """certified factorisation supplied by a contract (the caller has checked p == c * prod(factors) by normal form)"""
+    out = []
+    for f in factors:
+        if f.is_ground:
+            continue
+        out.extend(_factors(_norm(f)))
+    _factor_cache[_norm(p)] = out
 
 
 class State:
